@@ -39,7 +39,7 @@ node of a split, whose block is created with room for all records that move plus
 theorem addkv_direct {b : KvBlk} (g : Geo b) (key val : Bytes)
     (hidx : b.idxsz ≤ idxBytes b.slots)
     (hroom : Gen.KVBLK_HDRSZ + idxBytes b.slots + b.maxoff + recSize key val + 13 ≤ 2 ^ b.szpow)
-    (hoff : b.maxoff + recSize key val < 72057594037927936) (b' : KvBlk) (idx : Nat)
+    (hoff : b.maxoff ≤ 32 * 268435455) (b' : KvBlk) (idx : Nat)
     (e : addkv b key val = .ok b' idx) :
     b' = place b idx key val (recSize key val) ∧ recSize key val ≤ Gen.IWKV_MAX_KVSZ ∧
     idx < b.slots.length ∧ (sl b.slots idx).len = 0 := by
@@ -50,7 +50,8 @@ theorem addkv_direct {b : KvBlk} (g : Geo b) (key val : Bytes)
     split at e
     · exact absurd e (by simp)
     · rename_i hmax
-      have h8 := vn_le8 hoff
+      have hM : Gen.IWKV_MAX_KVSZ = 268435455 := rfl
+      have h8 : vn (b.maxoff + recSize key val) ≤ 8 := vn_le8 (by omega)
       have h5 : vn (recSize key val) ≤ 5 := vn_le5 (by have : Gen.IWKV_MAX_KVSZ = 268435455 := rfl; omega)
       have hdirect : ¬ msz b < rsz b (recSize key val) := by
         simp only [msz, rsz]; omega
@@ -64,10 +65,11 @@ theorem addkv_direct {b : KvBlk} (g : Geo b) (key val : Bytes)
 theorem addSpec_direct {b : KvBlk} (g : Geo b) (key val : Bytes)
     (hidx : b.idxsz ≤ idxBytes b.slots)
     (hroom : Gen.KVBLK_HDRSZ + idxBytes b.slots + b.maxoff + recSize key val + 13 ≤ 2 ^ b.szpow)
-    (hoff : b.maxoff + recSize key val < 72057594037927936) : AddSpec b key val := by
+    (hoff : b.maxoff ≤ 32 * 268435455) : AddSpec b key val := by
   intro b' idx e
   obtain ⟨e1, hmax, h1, h2⟩ := addkv_direct g key val hidx hroom hoff b' idx e
-  have h8 := vn_le8 hoff
+  have hM : Gen.IWKV_MAX_KVSZ = 268435455 := rfl
+  have h8 : vn (b.maxoff + recSize key val) ≤ 8 := vn_le8 (by omega)
   have h5 : vn (recSize key val) ≤ 5 := vn_le5 (by have : Gen.IWKV_MAX_KVSZ = 268435455 := rfl; omega)
   rw [e1]
   exact place_spec g key val (by simp only [rsz]; omega) (SameRecs.refl b) idx h1 h2
@@ -162,5 +164,246 @@ theorem addSpec_weakZ {b : KvBlk} (hb : BlkInv (normZ b)) (z : Nat) (hz : b.zidx
     rw [← e1]
     have hi := hb1'.idxge
     exact place_spec hb1'.toGeo key val (by omega) hsame' idx hfree.1 hfree.2
+
+/-! ### the lower half of a split: `cutOld` -/
+
+theorem sl_clearSlots (s : List Slot) (L : List Nat) (i : Nat) :
+    sl (clearSlots s L) i = if i ∈ L then Slot.free else sl s i := by
+  induction L generalizing s with
+  | nil => simp [clearSlots]
+  | cons a L ih =>
+    show sl (clearSlots (s.set a Slot.free) L) i = _
+    rw [ih]
+    by_cases hL : i ∈ L
+    · simp [hL]
+    · by_cases ha : i = a
+      · subst ha
+        simp only [hL, if_false, List.mem_cons, true_or, if_true]
+        by_cases hlt : i < s.length
+        · exact sl_set_eq _ _ _ hlt
+        · exact sl_ge _ _ (by rw [List.length_set]; omega)
+      · have : ¬ (i ∈ a :: L) := by simp [ha, hL]
+        simp only [hL, this, if_false]
+        exact sl_set_ne _ _ _ _ (Ne.symm ha)
+
+theorem length_clearSlots (s : List Slot) (L : List Nat) : (clearSlots s L).length = s.length := by
+  induction L generalizing s with
+  | nil => rfl
+  | cons a L ih => show (clearSlots (s.set a Slot.free) L).length = _; rw [ih, List.length_set]
+
+/-- resetting slots one after the other keeps the block invariant (each step is the table part of `_kvblk_rmkv`) -/
+theorem blkInv_clearMany {b : KvBlk} (h : BlkInv b) (L : List Nat) (hL : ∀ i ∈ L, i < b.slots.length) :
+    ∃ b0, BlkInv b0 ∧ b0.slots = clearSlots b.slots L ∧ b0.szpow = b.szpow ∧ b0.idxsz = b.idxsz := by
+  induction L generalizing b with
+  | nil => exact ⟨b, h, rfl, rfl, rfl⟩
+  | cons a L ih =>
+    have hc := blkInv_cleared h a (hL a (by simp))
+    have hlen : (cleared b a).slots.length = b.slots.length := List.length_set
+    obtain ⟨b0, h0, h1, h2, h3⟩ := ih hc (fun i hi => by rw [hlen]; exact hL i (by simp [hi]))
+    exact ⟨b0, h0, h1, h2, h3⟩
+
+theorem take_drop_disjoint {l : List Nat} (h : l.Nodup) (k : Nat) : ∀ i, i ∈ l.take k → i ∈ l.drop k → False := by
+  intro i h1 h2
+  have h' : (l.take k ++ l.drop k).Nodup := by rw [List.take_append_drop]; exact h
+  exact (List.nodup_append.1 h').2.2 i h1 i h2 rfl
+
+theorem mem_take_or_drop {l : List Nat} (k i : Nat) : i ∈ l ↔ i ∈ l.take k ∨ i ∈ l.drop k := by
+  conv => lhs; rw [← List.take_append_drop k l]
+  exact List.mem_append
+
+/-- the lower half keeps the first `pivot` keys, the invariant apart from `zidx` (which is SOME free slot), and its cache -/
+theorem core_cutOld {compound : Bool} {n : Node} (h : NodeInv compound n) (hp : pivot < n.pi.length) :
+    Core compound (cutOld n) ∧ keys (cutOld n) = (keys n).take pivot ∧ BlkInv (normZ (cutOld n).blk) ∧
+    (cutOld n).pnum = pivot ∧
+    (cutOld n).blk.zidx = some (piAt n pivot) ∧ piAt n pivot < (cutOld n).blk.slots.length ∧
+    (sl (cutOld n).blk.slots (piAt n pivot)).len = 0 := by
+  have hpiv : 0 < pivot := by decide
+  have hused : ∀ i ∈ n.pi, i < n.blk.slots.length := fun i hi => used_lt ((h.mem i).1 hi)
+  have hsl : ∀ i, sl (cutOld n).blk.slots i = if i ∈ n.pi.drop pivot then Slot.free else sl n.blk.slots i :=
+    fun i => sl_clearSlots _ _ i
+  have hkeep : ∀ i ∈ n.pi.take pivot, sl (cutOld n).blk.slots i = sl n.blk.slots i := by
+    intro i hi
+    rw [hsl, if_neg (fun hd => take_drop_disjoint h.nodup pivot i hi hd)]
+  have hkeys : keys (cutOld n) = (keys n).take pivot := by
+    show (n.pi.take pivot).map (slotKey (cutOld n).blk) = ((n.pi.map (slotKey n.blk))).take pivot
+    rw [← List.map_take]
+    exact List.map_congr_left fun i hi => by rw [slotKey_eq, slotKey_eq, hkeep i hi]
+  have hzm : piAt n pivot ∈ n.pi.drop pivot := by
+    rw [piAt_eq n pivot hp]
+    exact List.mem_drop_iff_getElem.2 ⟨0, by omega, by simp⟩
+  obtain ⟨b0, h0, h1, h2, h3⟩ := blkInv_clearMany h.blk (n.pi.drop pivot) (fun i hi => hused i (List.mem_of_mem_drop hi))
+  have hslots : (cutOld n).blk.slots = b0.slots := h1.symm
+  refine ⟨?_, hkeys, ?_, ?_, rfl, ?_, ?_⟩
+  · refine { pnum := ?_, le32 := ?_, nodup := ?_, mem := ?_, sorted := ?_, wf := ?_, cache := ?_ }
+    · show n.pnum - (n.pi.drop pivot).length = (n.pi.take pivot).length
+      rw [List.length_drop, List.length_take, h.pnum]; omega
+    · show n.pnum - (n.pi.drop pivot).length ≤ _
+      have := h.le32; omega
+    · exact h.nodup.sublist (List.take_sublist _ _)
+    · intro i
+      show i ∈ n.pi.take pivot ↔ (sl (cutOld n).blk.slots i).len ≠ 0
+      rw [hsl]
+      by_cases hd : i ∈ n.pi.drop pivot
+      · simp only [hd, if_true]
+        constructor
+        · intro ht; exact absurd hd (fun hd => take_drop_disjoint h.nodup pivot i ht hd)
+        · intro hne; exact absurd rfl hne
+      · simp only [hd, if_false]
+        constructor
+        · intro ht; exact (h.mem i).1 (List.mem_of_mem_take ht)
+        · intro hu
+          rcases (mem_take_or_drop pivot i).1 ((h.mem i).2 hu) with ht | hd'
+          · exact ht
+          · exact absurd hd' hd
+    · rw [hkeys]; exact h.sorted.sublist (List.take_sublist _ _)
+    · rw [hkeys]; intro k hk; exact h.wf k (List.mem_of_mem_take hk)
+    · intro k0 hk0
+      rw [hkeys] at hk0
+      have : (keys n).head? = some k0 := by
+        cases hq : keys n with
+        | nil => rw [hq] at hk0; simp at hk0
+        | cons x xs =>
+          rw [hq] at hk0
+          have : pivot = (pivot - 1) + 1 := by omega
+          rw [this, List.take_succ_cons] at hk0
+          simpa using hk0
+      exact h.cache k0 this
+  · -- the block: as after resetting the slots one by one
+    have hmo : (cutOld n).blk.maxoff = maxOff (cutOld n).blk.slots := rfl
+    have hr := h0.room'
+    have hr2 := h0.room
+    have hm0 := h0.maxoff
+    have hi0 := h0.idxge
+    refine { n32 := ?_, tab := ?_, maxoff := hmo, room := ?_, zidx := rfl, idxge := ?_, room' := ?_ }
+    · show (cutOld n).blk.slots.length = _; rw [hslots]; exact h0.n32
+    · show Tab (cutOld n).blk.slots; rw [hslots]; exact h0.tab
+    · show Gen.KVBLK_HDRSZ + idxBytes (cutOld n).blk.slots + maxOff (cutOld n).blk.slots ≤ 2 ^ n.blk.szpow
+      rw [hslots, ← hm0, ← h2]; exact hr2
+    · show idxBytes (cutOld n).blk.slots ≤ n.blk.idxsz
+      rw [hslots, ← h3]; exact hi0
+    · show Gen.KVBLK_HDRSZ + n.blk.idxsz + maxOff (cutOld n).blk.slots ≤ 2 ^ n.blk.szpow
+      rw [hslots, ← hm0, ← h2, ← h3]; exact hr
+  · show n.pnum - (n.pi.drop pivot).length = pivot
+    rw [List.length_drop, h.pnum]; omega
+  · show piAt n pivot < (clearSlots n.blk.slots (n.pi.drop pivot)).length
+    rw [length_clearSlots]; exact hused _ (List.mem_of_mem_drop hzm)
+  · rw [hsl, if_pos hzm]; rfl
+
+/-! ### the new node of a split: filled by `_sblk_addkv2` calls without a sync in between -/
+
+/-- a block being filled: `j` records placed so far, `rest` bytes of records still to come. Its cached index size is the one of the
+empty block; what keeps the data area off the index is the size the block was created with (`KVBLK_MAX_NKV_SZ` + all records). -/
+structure Fill (b : KvBlk) (j rest : Nat) : Prop where
+  geo : Geo b
+  idxsz : b.idxsz ≤ idxBytes b.slots
+  idx : idxBytes b.slots ≤ 2 * Gen.KVBLK_IDXNUM + 11 * j
+  off : b.maxoff ≤ j * 268435455
+  budget : Gen.KVBLK_HDRSZ + Gen.KVBLK_MAX_IDX_SZ + b.maxoff + rest ≤ 2 ^ b.szpow
+
+set_option maxRecDepth 4000 in
+theorem fill_step {b : KvBlk} {j rest : Nat} (h : Fill b j rest) (hj : j ≤ 15) (key val : Bytes)
+    (hpsz : recSize key val ≤ rest + 20) :
+    AddSpec b key val ∧ ∀ b' i, addkv b key val = .ok b' i → recSize key val ≤ rest → Fill b' (j + 1) (rest - recSize key val) := by
+  have c1 : Gen.KVBLK_HDRSZ = 3 := rfl
+  have c2 : Gen.KVBLK_MAX_IDX_SZ = 416 := rfl
+  have c3 : Gen.KVBLK_IDXNUM = 32 := rfl
+  have hM : Gen.IWKV_MAX_KVSZ = 268435455 := rfl
+  have hi := h.idx
+  have ho := h.off
+  have hb := h.budget
+  have hroom : Gen.KVBLK_HDRSZ + idxBytes b.slots + b.maxoff + recSize key val + 13 ≤ 2 ^ b.szpow := by omega
+  have hoff : b.maxoff ≤ 32 * 268435455 := Nat.le_trans ho (Nat.mul_le_mul_right _ (by omega))
+  have hspec := addSpec_direct h.geo key val h.idxsz hroom hoff
+  refine ⟨hspec, ?_⟩
+  intro b' i e hle
+  obtain ⟨e1, hmax, hlt, hfree⟩ := addkv_direct h.geo key val h.idxsz hroom hoff b' i e
+  have hg := (hspec b' i e).1
+  have hset := idxBytes_set b.slots i ⟨b.maxoff + recSize key val, recSize key val, key, val⟩ hlt
+  rw [hfree, h.geo.tab.freeoff i hfree, vn_zero] at hset
+  dsimp only at hset
+  have h8 : vn (b.maxoff + recSize key val) ≤ 8 := vn_le8 (by omega)
+  have h5 : vn (recSize key val) ≤ 5 := vn_le5 (by omega)
+  have p1 := vn_pos (b.maxoff + recSize key val)
+  have p2 := vn_pos (recSize key val)
+  have hs : b'.slots = b.slots.set i ⟨b.maxoff + recSize key val, recSize key val, key, val⟩ := by rw [e1]; rfl
+  have hm : b'.maxoff = b.maxoff + recSize key val := by rw [e1]; rfl
+  have hx : b'.idxsz = b.idxsz := by rw [e1]; rfl
+  have hp : b'.szpow = b.szpow := by rw [e1]; rfl
+  have hidxsz := h.idxsz
+  exact { geo := hg, idxsz := by rw [hx, hs]; omega, idx := by rw [hs]; omega, off := by rw [hm]; omega,
+          budget := by rw [hm, hp]; omega }
+
+theorem addkv2_blk {n n' : Node} {idx : Nat} {pre body val : Bytes} (e : addkv2 n idx pre body val = .ok n') :
+    ∃ b' kvidx, addkv n.blk (pre ++ body) val = .ok b' kvidx ∧ n'.blk = b' ∧ n'.pnum = n.pnum + 1 := by
+  simp only [addkv2] at e
+  split at e
+  · exact absurd e (by simp)
+  · split at e
+    · exact absurd e (by simp)
+    · exact absurd e (by simp)
+    · rename_i b kvidx hq
+      simp only [Res.ok.injEq] at e
+      refine ⟨b, kvidx, hq, ?_, ?_⟩ <;> (rw [← e]; split <;> rfl)
+
+/-- sum of the lengths of the records in the listed slots -/
+def lenSum (src : KvBlk) (L : List Nat) : Nat := (L.map fun s => (src.slots.getD s Slot.free).len).sum
+
+/-- the move loop of `_lx_split_addkv`: the new node receives the listed records in order, behind the ones it has -/
+theorem moveGo_spec {compound : Bool} (src : KvBlk) (htab : Tab src.slots) (extra : Nat) :
+    ∀ (L : List Nat) (nb nb' : Node), moveGo src L nb nb.pnum = some nb' →
+      Core compound nb → Fill nb.blk nb.pnum (lenSum src L + extra) → nb.pnum + L.length ≤ 16 →
+      (∀ s ∈ L, (sl src.slots s).len ≠ 0 ∧ WFS compound (slotKey src s)) →
+      ((keys nb ++ L.map (slotKey src)).Pairwise (gtS compound)) →
+      Core compound nb' ∧ Fill nb'.blk nb'.pnum extra ∧ keys nb' = keys nb ++ L.map (slotKey src) ∧
+      nb'.pnum = nb.pnum + L.length := by
+  intro L
+  induction L with
+  | nil =>
+    intro nb nb' e hc hf _ _ _
+    simp only [moveGo, Option.some.injEq] at e
+    subst e
+    refine ⟨hc, ?_, by simp, by simp⟩
+    have : lenSum src [] + extra = extra := by simp [lenSum]
+    rw [this] at hf; exact hf
+  | cons s rest ih =>
+    intro nb nb' e hc hf hcnt hL hsorted
+    simp only [moveGo] at e
+    split at e
+    · rename_i nb1 hq
+      have hs := hL s (by simp)
+      have hfit : (sl src.slots s).len = recSize (slotKey src s) (slotVal src s) := htab.fit s hs.1
+      have hsum : lenSum src (s :: rest) = (sl src.slots s).len + lenSum src rest := by simp [lenSum]
+      rw [hsum] at hf
+      have hcnt' : nb.pnum + rest.length + 1 ≤ 16 := by simpa [Nat.add_assoc] using hcnt
+      obtain ⟨hspec, hfill⟩ := fill_step hf (by omega) (slotKey src s) (slotVal src s) (by omega)
+      have hklen : (keys nb).length = nb.pnum := by rw [hc.pnum]; simp [keys]
+      -- the new key sorts behind all keys of the node
+      have hbehind : ∀ x ∈ keys nb, gtS compound x (slotKey src s) := by
+        intro x hx
+        have := (List.pairwise_append.1 hsorted).2.2 x hx (slotKey src s) (by simp)
+        exact this
+      have hf' : Found (fun i => (fun st => cmpS compound st (slotKey src s)) (keyAt nb i)) nb.pnum (false, nb.pnum) := by
+        refine ⟨Nat.le_refl _, ?_, fun hh => by simp at hh, fun _ i h1 h2 => by omega⟩
+        intro i hi
+        have hi' : i < nb.pi.length := by rw [← hc.pnum]; exact hi
+        have : keyAt nb i ∈ keys nb := by rw [keyAt_eq_getElem nb i hi']; exact List.getElem_mem _
+        exact hbehind _ this
+      have hstep := core_addkv2' hc nb.pnum [] (slotKey src s) (slotVal src s) hspec
+        (fun st => cmpS compound st (slotKey src s)) hs.2 (by simp) (fun st _ => rfl) hf' nb1 hq
+      obtain ⟨b', kvidx, ha, hb', hp'⟩ := addkv2_blk hq
+      have ha' : addkv nb.blk (slotKey src s) (slotVal src s) = .ok b' kvidx := ha
+      have hfill' := hfill b' kvidx ha' (by omega)
+      have hkeys1 : keys nb1 = keys nb ++ [slotKey src s] := by
+        rw [hstep.2.2.2, ← hklen, List.take_length, List.drop_length]; rfl
+      have hrest : (sl src.slots s).len + lenSum src rest + extra - recSize (slotKey src s) (slotVal src s) = lenSum src rest + extra := by
+        omega
+      rw [hrest, ← hb', ← hp'] at hfill'
+      rw [← hp'] at e
+      have := ih nb1 nb' e hstep.2.1 hfill' (by rw [hp']; omega)
+        (fun t ht => hL t (by simp [ht])) (by rw [hkeys1]; simpa using hsorted)
+      refine ⟨this.1, this.2.1, ?_, ?_⟩
+      · rw [this.2.2.1, hkeys1]; simp
+      · rw [this.2.2.2, hp']; simp only [List.length_cons]; omega
+    · exact absurd e (by simp)
 
 end IwModel.KvChain
